@@ -309,7 +309,7 @@ func replay(tier string, raw json.RawMessage) (bool, string, string) {
 func init() {
 	core.Register(&core.Prop{
 		ID: "C16", Variant: "plain", Shards: shards, Run: run, Replay: replay,
-		Rule: "pos: every text of the C02 lexical spaces that the reference reader accepts with at least one statement - Location() of every statement must be file:line:col of the first character of its keyword as computed by the reference reader (1-based, columns in characters); fault: every accepted template over a 14-piece alphabet (tabs, CR LF, multi-byte runes, comments, multi-line strings) with one fault injected at every applicable token (stray }, removed ;, quoted keyword, four invalid escapes, unterminated \", ', /*) - the first error line must start with the position of the offending token / backslash / opener; sem: module templates re-laid-out in hostile layouts with one semantic fault (unknown substatement, missing mandatory substatement, unknown type, unknown grouping, bad range, bad length, bad enum value) at every eligible statement - every file:line:col in any error must be the start of a statement and the statement the property names must be named; states = distinct templates/texts; non-trivial = compared cases",
+		Rule:        "pos: every text of the C02 lexical spaces that the reference reader accepts with at least one statement - Location() of every statement must be file:line:col of the first character of its keyword as computed by the reference reader (1-based, columns in characters); fault: every accepted template over a 14-piece alphabet (tabs, CR LF, multi-byte runes, comments, multi-line strings) with one fault injected at every applicable token (stray }, removed ;, quoted keyword, four invalid escapes, unterminated \", ', /*) - the first error line must start with the position of the offending token / backslash / opener; sem: module templates re-laid-out in hostile layouts with one semantic fault (unknown substatement, missing mandatory substatement, unknown type, unknown grouping, bad range, bad length, bad enum value) at every eligible statement - every file:line:col in any error must be the start of a statement and the statement the property names must be named; states = distinct templates/texts; non-trivial = compared cases",
 		Assumptions: []string{"the reference reader's positions are the true positions", "for cascading lexical faults only the first reported error line is compared", "missing-closing-brace and unexpected-EOF reports are outside the claim"},
 	})
 }
